@@ -72,7 +72,13 @@ type FuncContract struct {
 	MayPanic bool
 	CallsArg bool // the function's whole effect is to call its last argument (a func()) once
 	Bounded  []BoundedDef
+	GhostSets []GhostSet
 	NoSafety string // reason why panic-freedom obligations are not generated for this function
+}
+
+type GhostSet struct {
+	LHS, RHS Expr
+	Src      string
 }
 
 // BoundedDef attaches a bounded stand-in (a harness test run on the real code over an
@@ -374,6 +380,25 @@ func (sp *Specs) LoadFile(path, pkgName string) error {
 				cur.Modifies = append(cur.Modifies, e)
 				cur.ModSrc = append(cur.ModSrc, part)
 			}
+		case "ghostset":
+			// ghostset <ghost lvalue> := <expr>: a ghost assignment performed at every return of the
+			// function (contract-level ghost code; nothing is added to the repository's code)
+			if cur == nil {
+				return fail("ghostset outside a function contract")
+			}
+			parts := strings.SplitN(rest, ":=", 2)
+			if len(parts) != 2 {
+				return fail("ghostset needs :=")
+			}
+			lhs, err := ParseExpr(parts[0])
+			if err != nil {
+				return fail("%v", err)
+			}
+			rhs, err := ParseExpr(parts[1])
+			if err != nil {
+				return fail("%v", err)
+			}
+			cur.GhostSets = append(cur.GhostSets, GhostSet{lhs, rhs, rest})
 		case "let":
 			if cur == nil {
 				return fail("let outside a function contract")
@@ -422,7 +447,10 @@ func (sp *Specs) LoadFile(path, pkgName string) error {
 			if m == nil {
 				return fail("bad ghost declaration")
 			}
-			ty := strings.TrimPrefix(strings.TrimSpace(m[1]), "*")
+			ty := strings.TrimSpace(m[1])
+			if ty != "*" {
+				ty = strings.TrimPrefix(ty, "*")
+			}
 			sp.Ghosts[ty+"."+m[2]] = &GhostField{Type: ty, Name: m[2], Sort: strings.TrimSpace(m[3])}
 			cur = nil
 		case "smt":
